@@ -80,12 +80,8 @@ LABEL = re.compile(r"^(\w+)(?:\((\d+)\))?$")
 
 def cover_paths(dot, out_path, project, prios, max_len=400, limit=None, rnd=None):
     nodes, edges, init = tlaparse.load_dot(dot)
-    paths = tlaparse.path_cover(nodes, edges, init, max_len=max_len)
-    if rnd is not None:
-        rnd.shuffle(paths)
+    paths = tlaparse.path_cover(nodes, edges, init, max_len=max_len, limit=limit, rnd=rnd)
     total = len(paths)
-    if limit:
-        paths = paths[:limit]
     proj = {}
     steps = 0
     with open(out_path, "w") as f:
